@@ -39,18 +39,6 @@ Fixpoint links_wf (lo : Z) (ls : list link) (len : Z) : Prop :=
   end.
 Definition obj_wf (o : obj) : Prop := links_wf 0 (o_links o) (blen (o_bytes o)).
 
-Definition size_of (objs : zmap obj) (id : Z) : Z :=
-  match mfind id objs with Some o => blen (o_bytes o) | None => 0 end.
-Definition bytes_of (objs : zmap obj) (id : Z) : list Z :=
-  match mfind id objs with Some o => o_bytes o | None => [] end.
-(* prefix sums: position of (the first occurrence of) [id] in the layout [ord] *)
-Fixpoint posof (objs : zmap obj) (ord : list Z) (id : Z) : Z :=
-  match ord with
-  | [] => 0
-  | x :: r => if x =? id then 0 else size_of objs x + posof objs r id
-  end.
-Fixpoint total_size (objs : zmap obj) (ord : list Z) : Z :=
-  match ord with [] => 0 | id :: r => size_of objs id + total_size objs r end.
 Definition cat (objs : zmap obj) (ord : list Z) : list Z := concat (map (bytes_of objs) ord).
 
 (* a precedes b in ord *)
@@ -648,3 +636,104 @@ Qed.
 Lemma pack_false_no_bytes objs root g g' : from_objects objs root = Some g ->
   pack_objects g = Some (g', Failed) -> dump_graph objs root = RFailed.
 Proof. intros H1 H2. unfold dump_graph. rewrite H1, H2. reflexivity. Qed.
+
+(* ------------------------------------------------------------------------------------------ *)
+(* layout_okb: the decidable form of layout_ok, evaluated per case by check_case               *)
+
+Lemma zmem_In x l : zmem x l = true <-> In x l.
+Proof.
+  unfold zmem. rewrite existsb_exists. split.
+  - intros (y & Hy & E). assert (x = y) by lia. subst. exact Hy.
+  - intros H. exists x. split; [exact H|apply Z.eqb_refl].
+Qed.
+
+Lemma nodupb_sound l : nodupb l = true -> NoDup l.
+Proof.
+  induction l as [|x r IH]; cbn [nodupb]; intros H; [constructor|].
+  apply andb_prop in H. destruct H as (H1 & H2). constructor; [|apply IH; exact H2].
+  intro Hin. apply zmem_In in Hin. rewrite Hin in H1. discriminate.
+Qed.
+
+Lemma links_wfb_sound : forall ls lo len, links_wfb lo ls len = true -> links_wf lo ls len.
+Proof.
+  induction ls as [|l r IH]; intros lo len H; [exact I|].
+  cbn [links_wfb] in H. cbn [links_wf].
+  apply andb_prop in H. destruct H as (H & H4).
+  apply andb_prop in H. destruct H as (H & H3).
+  apply andb_prop in H. destruct H as (H1 & H2).
+  split; [lia|]. split; [|split; [lia|apply IH; exact H4]].
+  apply orb_prop in H2. destruct H2 as [H2|H2]; [|lia].
+  apply orb_prop in H2. destruct H2 as [H2|H2]; lia.
+Qed.
+
+Lemma index_of_In x : forall l i, index_of x l = Some i -> In x l.
+Proof.
+  induction l as [|y r IH]; cbn [index_of]; intros i H; [discriminate|].
+  destruct (y =? x) eqn:E; [left; lia|].
+  destruct (index_of x r) as [j|] eqn:Ej; [|discriminate]. right. eapply IH. reflexivity.
+Qed.
+
+Lemma precedes_of_index a b : forall ord i j,
+  index_of a ord = Some i -> index_of b ord = Some j -> (i < j)%nat -> precedes ord a b.
+Proof.
+  induction ord as [|y r IH]; cbn [index_of]; intros i j Ha Hb Hlt; [discriminate|].
+  destruct (y =? a) eqn:Ea.
+  - inversion Ha; subst i. destruct (y =? b) eqn:Eb; [inversion Hb; subst; lia|].
+    destruct (index_of b r) as [j'|] eqn:Ej; [|discriminate].
+    destruct (in_split _ _ (index_of_In _ _ _ Ej)) as (l2 & l3 & ->).
+    exists [], l2, l3. cbn. f_equal. lia.
+  - destruct (index_of a r) as [i'|] eqn:Ei; [|discriminate]. inversion Ha; subst i.
+    destruct (y =? b) eqn:Eb; [inversion Hb; subst; lia|].
+    destruct (index_of b r) as [j'|] eqn:Ej; [|discriminate]. inversion Hb; subst j.
+    destruct (IH i' j' eq_refl eq_refl) as (l1 & l2 & l3 & ->); [lia|].
+    exists (y :: l1), l2, l3. reflexivity.
+Qed.
+
+Lemma layout_okb_sound objs ord : layout_okb objs ord = true -> layout_ok objs ord.
+Proof.
+  unfold layout_okb. intros H.
+  apply andb_prop in H. destruct H as (H & Hall).
+  apply andb_prop in H. destruct H as (H & Hsize).
+  apply andb_prop in H. destruct H as (Hne & Hnd).
+  rewrite forallb_forall in Hall.
+  assert (Hobj : forall id, In id ord -> exists o, mfind id objs = Some o /\ obj_wf o /\
+            forallb (link_okb objs ord id) (o_links o) = true).
+  { intros id Hid. specialize (Hall id Hid). destruct (mfind id objs) as [o|]; [|discriminate].
+    apply andb_prop in Hall. destruct Hall as (Hw & Hl). exists o. repeat split; auto.
+    apply links_wfb_sound. exact Hw. }
+  assert (Hlink : forall id o l, In id ord -> mfind id objs = Some o -> In l (o_links o) ->
+            link_okb objs ord id l = true).
+  { intros id o l Hid Ho Hl. destruct (Hobj id Hid) as (o' & Ho' & _ & Hf). rewrite Ho in Ho'. inversion Ho'; subst o'.
+    rewrite forallb_forall in Hf. apply Hf. exact Hl. }
+  constructor.
+  - intro E. subst ord. discriminate.
+  - apply nodupb_sound. exact Hnd.
+  - intros id Hid. destruct (Hobj id Hid) as (o & Ho & Hw & _). eauto.
+  - intros id o l Hid Ho Hl. pose proof (Hlink id o l Hid Ho Hl) as Hk. unfold link_okb in Hk.
+    apply andb_prop in Hk. destruct Hk as (Hk & K5). apply andb_prop in Hk. destruct Hk as (Hk & K4).
+    apply andb_prop in Hk. destruct Hk as (Hk & K3). apply andb_prop in Hk. destruct Hk as (K1 & K2).
+    apply zmem_In. exact K1.
+  - lia.
+  - intros id o l Hid Ho Hl. pose proof (Hlink id o l Hid Ho Hl) as Hk. unfold link_okb in Hk.
+    apply andb_prop in Hk. destruct Hk as (Hk & K5). apply andb_prop in Hk. destruct Hk as (Hk & K4).
+    apply andb_prop in Hk. destruct Hk as (Hk & K3). apply andb_prop in Hk. destruct Hk as (K1 & K2). lia.
+  - intros id o l Hid Ho Hl. pose proof (Hlink id o l Hid Ho Hl) as Hk. unfold link_okb in Hk.
+    apply andb_prop in Hk. destruct Hk as (Hk & K5). apply andb_prop in Hk. destruct Hk as (Hk & K4).
+    apply andb_prop in Hk. destruct Hk as (Hk & K3). apply andb_prop in Hk. destruct Hk as (K1 & K2).
+    destruct (index_of id ord) as [i|] eqn:Ei; [|discriminate].
+    destruct (index_of (l_obj l) ord) as [j|] eqn:Ej; [|discriminate].
+    eapply precedes_of_index; eauto. apply Nat.ltb_lt. exact K5.
+Qed.
+
+(* what a passed check_case establishes for the compared bytes *)
+Theorem layout_okb_resolves objs ord : layout_okb objs ord = true ->
+  exists out, serialize_ord objs ord = Some out /\ blen out = total_size objs ord /\
+    Resolves objs out 0 (hd 0 ord) /\
+    (forall id, In id ord -> Resolves objs out (posof objs ord id) id).
+Proof.
+  intros H. pose proof (layout_okb_sound _ _ H) as L.
+  destruct (serialize_sound_lemma _ _ L) as (out & Hs & Hl & Hr & _).
+  exists out. repeat split; auto.
+  destruct ord as [|x r]; [exfalso; exact (lo_nonempty _ _ L eq_refl)|]. cbn [hd].
+  specialize (Hr x (or_introl eq_refl)). cbn [posof] in Hr. rewrite Z.eqb_refl in Hr. exact Hr.
+Qed.
